@@ -201,7 +201,8 @@ def stage_tables(work, tier, seed):
         for tt in ("lalr", "pager", "rn"):
             cases.append({"id": "%s|%s" % (gid, tt), "grammar": text,
                           "cfg": {"algo": "glr", "tt": tt, "raw": True, "ps": False, "pse": False},
-                          "meta": {"nodis": False, "plain": False}})
+                          "meta": dict({"nodis": False, "plain": False},
+                                       **({"abs": G.abstract_of(g)} if tt == "pager" else {}))})
     for path, text in repo_grammars(tier):
         gid = "repo:" + path
         gtext[gid] = text
